@@ -11,7 +11,7 @@ Quick tier: executable predicates with loops, CAPACITY symbolic in 1..8 (bounded
 from contracts.common import *
 
 W = 'w_machine'
-CAPMAX = 5      # quick tier; the thorough tier re-runs the same units at capacity <= 8 (see bottom)
+CAPMAX = globals().get('CAPMAX_OVERRIDE', 5)      # quick tier; contracts/deep.py re-runs the same units at a larger bound in the thorough tier
 TL_RECS = {'TaskListT': r'^ffsm2::detail::TaskListT<int,\d+>$', 'TaskT': r'^ffsm2::detail::TaskT<int>$', 'TaskBase': r'^ffsm2::detail::TaskBase$'}
 CAP = 'TaskListT__CAPACITY'
 TL_GHOST = ['''
